@@ -8,6 +8,20 @@
 #include "q120_common.h"
 #include "q120_ntt_private.h"
 
+#ifdef SPQLIOS_VERIF
+/* verification hook (guard SPQLIOS_VERIF): observation callback after every NTT / iNTT stage.
+ * stage_nn = 0 for the twist stage (a_k.omega^k), otherwise the butterfly span of the stage just executed
+ * on [begin,end). Default: no callback installed, nothing observable changes. */
+typedef void (*spqlios_verif_ntt_trace_f)(int inverse, uint64_t n, uint64_t stage_nn, const uint64_t* begin,
+                                          const uint64_t* end);
+static spqlios_verif_ntt_trace_f spqlios_verif_ntt_trace = 0;
+EXPORT void spqlios_verif_set_ntt_trace(spqlios_verif_ntt_trace_f f) { spqlios_verif_ntt_trace = f; }
+#define SPQLIOS_VERIF_TRACE(inv, n, nn, b, e) \
+  if (spqlios_verif_ntt_trace) spqlios_verif_ntt_trace(inv, n, nn, (const uint64_t*)(b), (const uint64_t*)(e))
+#else
+#define SPQLIOS_VERIF_TRACE(inv, n, nn, b, e)
+#endif
+
 // at which level to switch from computations by level to computations by block
 #define CHANGE_MODE_N 1024
 
@@ -199,6 +213,8 @@ EXPORT void q120_ntt_bb_avx2(const q120_ntt_precomp* const precomp, q120b* const
     assert(bs < itData->bs);
   }
 
+  SPQLIOS_VERIF_TRACE(0, n, 0, begin, end);
+
   powomega += n;
   itData++;
 
@@ -220,6 +236,8 @@ EXPORT void q120_ntt_bb_avx2(const q120_ntt_precomp* const precomp, q120b* const
       LOG("Iter %3" PRIu64 " - %lf %" PRIu64 " %c\n", nn / 2, bs, itData->bs, itData->reduce ? '*' : ' ');
       assert(bs < itData->bs);
     }
+
+    SPQLIOS_VERIF_TRACE(0, n, nn, begin, end);
 
     powomega += halfnn - 1;
     itData++;
@@ -249,6 +267,8 @@ EXPORT void q120_ntt_bb_avx2(const q120_ntt_precomp* const precomp, q120b* const
           // LOG("Iter %3lu - %lf %lu\n", nn / 2, bs, itData->bs);
           assert(bs < itData->bs);
         }
+
+        SPQLIOS_VERIF_TRACE(0, n, nn, begin1, end1);
 
         powomega += halfnn - 1;
         itData++;
@@ -437,6 +457,8 @@ EXPORT void q120_intt_bb_avx2(const q120_ntt_precomp* const precomp, q120b* cons
           assert(bs < itData->bs);
         }
 
+        SPQLIOS_VERIF_TRACE(1, n, nn, begin1, end1);
+
         powomega += halfnn - 1;
         itData++;
       }
@@ -460,6 +482,8 @@ EXPORT void q120_intt_bb_avx2(const q120_ntt_precomp* const precomp, q120b* cons
       assert(bs < itData->bs);
     }
 
+    SPQLIOS_VERIF_TRACE(1, n, nn, begin, end);
+
     powomega += halfnn - 1;
     itData++;
   }
@@ -470,6 +494,8 @@ EXPORT void q120_intt_bb_avx2(const q120_ntt_precomp* const precomp, q120b* cons
   } else {
     ntt_iter_first(begin, end, itData, powomega);
   }
+
+  SPQLIOS_VERIF_TRACE(1, n, 0, begin, end);
 
   if (CHECK_BOUNDS) {
     double bs __attribute__((unused)) = max_bit_size((void*)begin, (void*)end);
